@@ -20,7 +20,7 @@ Lemma of_uint63_f_of_Z i : PrimFloat.of_uint63 i = f_of_Z (Uint63.to_Z i).
 Proof.
   rewrite <- (Uint63.of_to_Z i) at 1. destruct (Uint63.to_Z i) as [|q|q] eqn:E.
   - vm_compute. reflexivity.
-  - reflexivity.
+  - cbn [f_of_Z]. exact eq_refl.
   - pose proof (Uint63.to_Z_bounded i). lia.
 Qed.
 
@@ -81,7 +81,7 @@ Proof.
   assert (Hr : (FR 1%float <= FR p + FR 1%float <= FR c964)%R).
   { rewrite FR_one, FR_c964. lra. }
   destruct (add_R p 1%float Fp fin_one (rnd_no_overflow _ _ _ Hr)) as [Ea Fa].
-  split; [exact Fa|]. fold a in Ea. rewrite Ea. apply rnd_between in Hr. rewrite FR_one in Hr. apply Hr.
+  split; [exact Fa|]. fold a in Ea. rewrite Ea. apply rnd_between in Hr. rewrite FR_one in Hr |- *. apply Hr.
 Qed.
 
 (* int(math.Floor(a)) >= 1 for every finite a >= 1 *)
